@@ -40,10 +40,11 @@ def demo(wt, d, k):
 
 def main():
     pid, k = sys.argv[1], sys.argv[2]
-    d = f"/tmp/seed/out/{pid}/{k}"
+    root = os.environ.get("SEED_ROOT", "/tmp/seed")
+    d = f"{root}/out/{pid}/{k}"
     wt = f"/tmp/seedval/{pid}_{k}"
     os.makedirs("/tmp/seedval", exist_ok=True)
-    os.makedirs("/tmp/seed/val", exist_ok=True)
+    os.makedirs(f"{root}/val", exist_ok=True)
     subprocess.run(["git", "-C", "/repo", "worktree", "remove", "--force", wt], capture_output=True)
     subprocess.run(["git", "-C", "/repo", "worktree", "add", "-q", "--detach", wt, "HEAD"], check=True)
     res = {"id": pid, "k": k}
@@ -68,7 +69,7 @@ def main():
         subprocess.run("pkill -f /tmp/seedval/%s_%s/target" % (pid, k), shell=True)
         subprocess.run(["git", "-C", "/repo", "worktree", "remove", "--force", wt], capture_output=True)
         shutil.rmtree(wt, ignore_errors=True)
-    json.dump(res, open(f"/tmp/seed/val/{pid}_{k}.json", "w"), indent=1)
+    json.dump(res, open(f"{root}/val/{pid}_{k}.json", "w"), indent=1)
     print(pid, k, "confirmed" if res.get("confirmed") else "NOT CONFIRMED", {x: res.get(x) for x in ("demo_without_patch_passes", "patch_applies", "tests_pass", "demo_with_patch_passes")})
 
 main()
